@@ -31,6 +31,13 @@ class Conc(Family):
                 out.append((case("frontend", ops, 0, 3000), "frontend-stress"))
             out.append((case("proxy", [("shared_object_add", i) for i in range(3)], 0, 3000), "proxy-stress"))
             out.append((case("gpu", [("get_protocol_features", 0)] * 3, 0, 3000), "gpu-stress"))
+            # acknowledged, reply-bearing and fire-and-forget GPU operations mixed
+            out.append((case("gpu", [("update_dmabuf_scanout", 0), ("get_protocol_features", 0), ("get_protocol_features", 0)], 0, 3000), "gpu-stress"))
+            out.append((case("gpu", [("update_dmabuf_scanout", 0), ("cursor_pos", 0), ("get_protocol_features", 0)], 0, 3000), "gpu-stress"))
+            out.append((case("gpu", [("update_dmabuf_scanout", 0), ("update_dmabuf_scanout", 0)], 0, 3000), "gpu-stress"))
+            for a in ("update_dmabuf_scanout", "cursor_pos", "get_protocol_features"):
+                for b in ("update_dmabuf_scanout", "get_protocol_features"):
+                    out.append((case("gpu", [(a, 0), (b, 0)], rng.choice([10, 20])), "gpu-2"))
             for n in (2, 3):
                 out.append((case("proxy", [("shared_object_add", i) for i in range(n)], 15), "proxy"))
                 out.append((case("gpu", [("get_protocol_features", 0)] * n, 15), "gpu"))
